@@ -513,6 +513,22 @@ def _r6_tables(repo, rep, cls):
     fwd = ('_b2v_single_dict', '_b2v_range_tuple_list', '_b2v_unclaimed')
     bwd = '_v2b_dict'
 
+    # locals that stand for a table: `v2b = vm._v2b_dict`
+    alias = {}
+    for n in walk_no_nested(f.node):
+        if isinstance(n, ast.Assign) and len(n.targets) == 1 and \
+                isinstance(n.targets[0], ast.Name) and \
+                isinstance(n.value, ast.Attribute) and \
+                n.value.attr in fwd + (bwd,):
+            alias[n.targets[0].id] = n.value.attr
+
+    def table_of(x):
+        if isinstance(x, ast.Attribute) and x.attr in fwd + (bwd,):
+            return x.attr
+        if isinstance(x, ast.Name) and x.id in alias:
+            return alias[x.id]
+        return None
+
     def writes(stmts):
         w = []
         for st in stmts:
@@ -520,35 +536,30 @@ def _r6_tables(repo, rep, cls):
                 if isinstance(n, ast.Assign):
                     for t in n.targets:
                         base = t.value if isinstance(t, ast.Subscript) else t
-                        if isinstance(base, ast.Attribute) and \
-                                base.attr in fwd + (bwd,):
-                            w.append((base.attr, n))
+                        if isinstance(base, ast.Name) and \
+                                not isinstance(t, ast.Subscript):
+                            continue        # the alias definition itself
+                        if table_of(base):
+                            w.append((table_of(base), n))
                 elif isinstance(n, ast.Call) and \
                         isinstance(n.func, ast.Attribute) and \
                         n.func.attr == 'append' and \
-                        isinstance(n.func.value, ast.Attribute) and \
-                        n.func.value.attr in fwd:
-                    w.append((n.func.value.attr, n))
+                        table_of(n.func.value) in fwd:
+                    w.append((table_of(n.func.value), n))
         return w
 
     loop = [st for st in f.body if isinstance(st, ast.For)]
     if not loop:
         raise AnalysisError('_create_for_element: table-building loop '
                             'vanished')
-
-    def leaves(stmts, acc):
-        """straight-line leaves of the if-tree in the loop body"""
-        ifs = [s for s in stmts if isinstance(s, ast.If)]
-        if not ifs:
-            acc.append(stmts)
-            return
-        pre = [s for s in stmts if not isinstance(s, ast.If)]
-        for i in ifs:
-            leaves(pre + i.body, acc)
-            leaves(pre + i.orelse, acc)
-
-    acc = []
-    leaves(loop[-1].body, acc)
+    # every way through one iteration of the loop body
+    from ..paths import return_paths, _Block
+    lps = return_paths(_Block(loop[-1].body, f), max_paths=64, inline=False)
+    if not lps:
+        raise AnalysisError('_create_for_element: paths through the '
+                            'table-building loop not enumerable')
+    acc = [[e for e in p_.effects if not isinstance(e, ast.If)]
+           for p_ in lps]
     seenf = set()
     for leaf in acc:
         w = writes(leaf)
@@ -627,31 +638,35 @@ def _r6_tables(repo, rep, cls):
                     names = [norm(x) for x in s.targets[0].elts]
             if isinstance(n.target, ast.Tuple) and len(n.target.elts) == 3:
                 names = [norm(x) for x in n.target.elts]
-            for c in ast.walk(n):
-                if isinstance(c, ast.Compare) and names:
-                    found = True
-                    val = g.params[1] if len(g.params) > 1 else None
-                    form1 = len(c.ops) == 2 and \
-                        all(isinstance(o, ast.LtE) for o in c.ops) and \
-                        norm(c.left) == names[0] and \
-                        norm(c.comparators[0]) == val and \
-                        norm(c.comparators[1]) == names[1]
-                    form2 = len(c.ops) == 2 and \
-                        all(isinstance(o, ast.GtE) for o in c.ops) and \
-                        norm(c.left) == names[1] and \
-                        norm(c.comparators[0]) == val and \
-                        norm(c.comparators[1]) == names[0]
-                    ok = form1 or form2
-                    r6.ob(ok, 'range-test', {'range test': norm(c)})
-                    if not ok:
-                        rep.finding(
-                            r6, g.qualname, norm(c), 'range-test', VM,
-                            c.lineno, 'ranges built by _values_tuple are '
-                            'closed on both ends (lo..hi inclusive; the '
-                            'neighbour of an open range is hi+1 / lo-1): the '
-                            'membership test must be %s <= value <= %s'
-                            % (names[0], names[1]))
-                    break
+            if not names:
+                continue
+            val = g.params[1] if len(g.params) > 1 else None
+            from ..paths import return_paths, _Block
+            lpaths = return_paths(_Block(n.body, g), max_paths=64,
+                                  inline=False) or []
+            for p_ in lpaths:
+                if not isinstance(p_.ret_stmt, ast.Return) or \
+                        norm(p_.resolve(p_.value)) != names[2]:
+                    continue
+                found = True
+                rels = _order_relations(p_.facts)
+                need = {(names[0], '<=', val), (val, '<=', names[1])}
+                strict = {(a_, '<', b_) for a_, _o, b_ in need}
+                ok = need <= rels and not (strict & rels)
+                shown = ' and '.join(sorted('%s %s %s' % r_ for r_ in rels
+                                            if val in (r_[0], r_[2])))
+                r6.ob(ok, 'range-test', {'range test': shown})
+                if not ok:
+                    c = next((e for e, _pl in p_.facts
+                              if isinstance(e, ast.Compare)), p_.ret_stmt)
+                    rep.finding(
+                        r6, g.qualname, norm(c), 'range-test', VM,
+                        c.lineno, 'ranges built by _values_tuple are '
+                        'closed on both ends (lo..hi inclusive; the '
+                        'neighbour of an open range is hi+1 / lo-1): the '
+                        'membership test must be %s <= value <= %s; the '
+                        'Values string is returned when %s'
+                        % (names[0], names[1], shown or 'nothing is tested'))
     if not found:
         r6.undecided.append('range membership test not in the recognised '
                             'form (for ... in _b2v_range_tuple_list with a '
@@ -948,6 +963,32 @@ def factories_agree(repo, rep):
                         % (fn, dict(kws), dict(x for x in major[:-1])))
 
 
+def _order_relations(facts):
+    """the order relations (a, '<=' | '<', b) between expressions (as text)
+    that a list of path facts establishes; a chained comparison known to be
+    false says nothing definite and is skipped"""
+    flip = {ast.Lt: ('<', False), ast.LtE: ('<=', False),
+            ast.Gt: ('<', True), ast.GtE: ('<=', True)}
+    neg = {ast.Lt: ast.GtE, ast.LtE: ast.Gt, ast.Gt: ast.LtE, ast.GtE: ast.Lt}
+    out = set()
+    for e, pol in facts:
+        if not isinstance(e, ast.Compare):
+            continue
+        if not pol and len(e.ops) != 1:
+            continue
+        items = [e.left] + list(e.comparators)
+        for l_, op, r_ in zip(items, e.ops, items[1:]):
+            t = type(op)
+            if t not in flip:
+                continue
+            if not pol:
+                t = neg[t]
+            sym, swap = flip[t]
+            a_, b_ = (norm(r_), norm(l_)) if swap else (norm(l_), norm(r_))
+            out.add((a_, sym, b_))
+    return out
+
+
 def keys_as_stored(repo, rep):
     """C20.R10: the translation tables are read with keys of the form they
     were stored under.  The tables map Values strings / integers exactly as
@@ -995,25 +1036,36 @@ def keys_as_stored(repo, rep):
         return tuple(out)
     stores, reads = {}, {}
     for f in vm.methods.values():
+        # locals that stand for a table: `table = self._v2b_dict`
+        alias = {}
+        for n in walk_no_nested(f.node):
+            if isinstance(n, ast.Assign) and len(n.targets) == 1 and \
+                    isinstance(n.targets[0], ast.Name) and \
+                    isinstance(n.value, ast.Attribute) and \
+                    n.value.attr in tables:
+                alias[n.targets[0].id] = n.value.attr
+
+        def table_of(x):
+            if isinstance(x, ast.Attribute) and x.attr in tables:
+                return x.attr
+            if isinstance(x, ast.Name) and x.id in alias:
+                return alias[x.id]
+            return None
         for n in walk_no_nested(f.node):
             key = tab = None
             store = False
-            if isinstance(n, ast.Subscript) and \
-                    isinstance(n.value, ast.Attribute) and \
-                    n.value.attr in tables:
-                tab, key = n.value.attr, n.slice
+            if isinstance(n, ast.Subscript) and table_of(n.value):
+                tab, key = table_of(n.value), n.slice
                 store = isinstance(n.ctx, ast.Store)
             elif isinstance(n, ast.Call) and \
                     isinstance(n.func, ast.Attribute) and \
                     n.func.attr in ('get', 'pop', 'setdefault') and \
-                    isinstance(n.func.value, ast.Attribute) and \
-                    n.func.value.attr in tables and n.args:
-                tab, key = n.func.value.attr, n.args[0]
+                    table_of(n.func.value) and n.args:
+                tab, key = table_of(n.func.value), n.args[0]
             elif isinstance(n, ast.Compare) and len(n.ops) == 1 and \
                     isinstance(n.ops[0], (ast.In, ast.NotIn)) and \
-                    isinstance(n.comparators[0], ast.Attribute) and \
-                    n.comparators[0].attr in tables:
-                tab, key = n.comparators[0].attr, n.left
+                    table_of(n.comparators[0]):
+                tab, key = table_of(n.comparators[0]), n.left
             if tab is None:
                 continue
             (stores if store else reads).setdefault(tab, []).append(
